@@ -254,6 +254,22 @@ def c105(ctx):
         fam_ = list(P.family(STORE + name))
         for hb in sorted(getattr(lineage_fn(P, name), 'inlined_bodies', ())):
             fam_ += [x for x in P.family(hb) if x not in fam_]
+        # a small predicate closure that is handed the seq (`within_cut(event.seq)`): its parameter stands for Event.seq
+        seq_params = {}
+        for g2 in fam_:
+            for s_ in g2.sites():
+                if s_.callee in P.fns and '{closure' in s_.callee and len(s_.args) >= 2:
+                    o_ = g2.origin(s_.args[1])
+                    els_ = o_[1]['a'] if o_[0] == 'rv' and o_[1].get('ak') == 'tuple' else [s_.args[1]]
+                    for i_, el in enumerate(els_):
+                        if is_event_seq(g2, el):
+                            seq_params.setdefault(s_.callee, set()).add(2 + i_)
+
+        def is_seq(g, op):
+            if is_event_seq(g, op):
+                return True
+            r_ = g.root_local(op)
+            return r_ is not None and r_ in seq_params.get(g.path, ())
         for g in fam_:
             for bi in g.reachable():
                 for st in g.blocks[bi]['s']:
@@ -261,7 +277,7 @@ def c105(ctx):
                     if not (rv and rv['k'] == 'bin' and rv['op'] in ('Lt', 'Le', 'Gt', 'Ge')):
                         continue
                     a, b = rv['a']
-                    la, lb = is_event_seq(g, a), is_event_seq(g, b)
+                    la, lb = is_seq(g, a), is_seq(g, b)
                     if la == lb:
                         continue          # neither, or a comparison between two frames
                     ncmp += 1
